@@ -332,14 +332,27 @@ Lemma dec16_sound l sym n : Forall (fun u => u < 65536) l -> dec16 l = DOk sym n
   scalar sym /\ l = enc16 sym ++ skipn n l /\ n = length (enc16 sym).
 Proof.
   intros Hl H. destruct l as [|s t]; [discriminate|]. inversion Hl as [|? ? Hs Ht]; subst.
-  unfold dec16 in H. rewrite ?pair_value in H. unfold in_surr in H.
+  unfold dec16 in H. unfold in_surr in H.
   destruct ((0xD800 <=? s) && (s <=? 0xDFFF)) eqn:E1.
   - destruct (0xDC00 <=? s) eqn:E2; [discriminate|].
     destruct t as [|low t']; [discriminate|]. inversion Ht as [|? ? Hlow _]; subst.
     destruct ((0xDC00 <=? low) && (low <=? 0xDFFF)) eqn:E3; [|discriminate].
-    inversion H; subst; clear H. unfold scalar, scalarb, enc16. if_lia. cbn [app skipn length].
-    split; [lia|]. split; [|reflexivity]. repeat (apply cons_eq; [lia|]). reflexivity.
-  - inversion H; subst; clear H. unfold scalar, scalarb, enc16. if_lia. cbn [app skipn length].
+    rewrite pair_value in H.
+    remember (0x10000 + s mod 1024 * 1024 + low mod 1024) as v eqn:Ev.
+    injection H as <- <-.
+    assert (Ha : s mod 1024 = s - 0xD800) by lia.
+    assert (Hb : low mod 1024 = low - 0xDC00) by lia.
+    rewrite Ha, Hb in Ev. clear Ha Hb.
+    set (a := s - 0xD800) in *. set (b := low - 0xDC00) in *.
+    assert (Hab : a < 1024 /\ b < 1024 /\ s = 0xD800 + a /\ low = 0xDC00 + b) by (subst a b; lia).
+    clearbody a b. destruct Hab as [Ha [Hb [-> ->]]].
+    assert (Hlt : (v <? 0x10000) = false) by lia.
+    assert (Hd : (v - 0x10000) / 1024 = a) by lia.
+    assert (Hm : (v - 0x10000) mod 1024 = b) by lia.
+    unfold scalar, scalarb, enc16. rewrite Hlt, Hd, Hm. cbn [app skipn length].
+    split; [lia|]. split; reflexivity.
+  - injection H as <- <-. unfold scalar, scalarb, enc16.
+    assert (Hlt : (s <? 0x10000) = true) by lia. rewrite Hlt. cbn [app skipn length].
     split; [lia|]. split; reflexivity.
 Qed.
 
